@@ -5,6 +5,7 @@ import subprocess
 from concurrent.futures import ThreadPoolExecutor
 
 from . import extract
+from .facts import AnalysisBroken
 
 COMPILERS = {'g++': ['g++'], 'clang++': ['clang++']}
 STDS_QUICK = ['c++17']
@@ -53,19 +54,41 @@ def mentioned_lines(output, unit):
     return lines
 
 
-def check_static_unit(ctx, rule, unit, what, tier=None):
-    """All static_asserts of `unit` hold under g++ and clang++ (quick: c++11 and c++17; thorough: 11/14/17/20)."""
+def check_static_unit(ctx, rule, unit, what, tier=None, tag=None):
+    """All static_asserts of `unit` hold under g++ and clang++ (quick: c++11 and c++17; thorough: 11/14/17/20).
+    With `tag` only the asserts marked `// @<tag>` are this rule's: a failing assert of another tag is ignored here (it belongs to
+    another property's check); an error on a line that is no tagged assert means the unit itself no longer builds - analysis-broken."""
     tier = tier or ctx.tier
     stds = STDS_ALL if tier == 'thorough' else ['c++11', 'c++17']
-    src = open(unit).read()
-    n_asserts = len(re.findall(r'\bstatic_assert\s*\(', src))
+    lines = open(unit).read().splitlines()
+    tags = {}
+    for i, l in enumerate(lines, 1):
+        if re.search(r'\bstatic_assert\s*\(', l):
+            tags[i] = set(re.findall(r'@(C\d\d)', l))
+    own = [i for i, t in tags.items() if tag is None or tag in t]
+    n_asserts = len(own)
+    if tag is not None and not own:
+        raise AnalysisBroken('%s: no static_assert tagged @%s in %s' % (rule, tag, os.path.basename(unit)))
     jobs = [(unit, c, s, ()) for c in ('g++', 'clang++') for s in stds]
     name = 'witness/' + os.path.basename(unit)
     for (u, c, s, e), rc, out in run_matrix(jobs):
-        errs = [l for l in out.splitlines() if ' error' in l][:3]
-        ctx.ob(rule, name, '%s: %d static_assert witnesses hold with %s -std=%s' % (what, n_asserts, c, s), rc == 0,
-               detail='\n'.join(x[:300] for x in errs), key_detail='static %s %s' % (c, s))
-    ctx.extra.setdefault('static_asserts', {})[os.path.basename(unit)] = n_asserts
+        errs = [l for l in out.splitlines() if ' error' in l]
+        ok = rc == 0
+        shown = errs[:3]
+        if tag is not None and rc != 0:
+            failing = mentioned_lines(out, unit)
+            mine = sorted(x for x in failing if x in own)
+            foreign = sorted(x for x in failing if x in tags and x not in own)
+            other = sorted(x for x in failing if x not in tags)
+            if other or not failing:
+                ctx.broken_later('%s: %s does not build any more with %s -std=%s (error outside the tagged asserts, lines %s)' % (rule, name, c, s, other))
+                ok = True if not mine else False
+            else:
+                ok = not mine
+            shown = [l for l in errs if any((':%d:' % x) in l for x in mine)][:3]
+        ctx.ob(rule, name, '%s: %d static_assert witnesses hold with %s -std=%s' % (what, n_asserts, c, s), ok,
+               detail='\n'.join(x[:300] for x in shown), key_detail='static %s %s' % (c, s))
+    ctx.extra.setdefault('static_asserts', {})[os.path.basename(unit) + ((':' + tag) if tag else '')] = n_asserts
     return n_asserts
 
 
